@@ -343,6 +343,8 @@ class SmartServerRequestProtocolOne(SmartProtocolBase):
                     (b"error", str(protocol_error).encode("utf-8"))
                 )
                 self._send_response(failure)
+                self.unused_data = self.in_buffer
+                self.in_buffer = b""
                 return
             except Exception as exception:
                 # everything else: pass to client, flush, and quit
@@ -352,6 +354,8 @@ class SmartServerRequestProtocolOne(SmartProtocolBase):
                         (b"error", str(exception).encode("utf-8"))
                     )
                 )
+                self.unused_data = self.in_buffer
+                self.in_buffer = b""
                 return
 
         if self._has_dispatched:
